@@ -74,6 +74,10 @@ CHECKS = {
             'iff the frames were PING probe then UPGRADE; after any other sequence everything queued is delivered by polling, in order and once, and a later correct '
             'handshake succeeds; a completed upgrade refuses a second one without disturbing the first socket; a disallowed transport is never used.',
             'Trusted: CrossHair (selector enumeration), z3, the simulated environment.', '§3 C06'),
+    'C03': (SIM + '; solver-enumerated counts of send() calls in five slots around the upgrade handshake (one slot with bursts up to 20), poll-pending / late-poll flags, handshake outcome, second session, first scheduling decisions; client-side monitor',
+            'For every scenario inside the bounds, on both servers: each session receives only its own messages, without duplicates, in send order, all of them when the client keeps reading; '
+            'a poll answered while something is queued returns all of it; polls started after the upgrade began return only NOOP; after a failed handshake polling delivers the backlog.',
+            'Trusted: CrossHair (selector enumeration), z3, the simulated environment (cooperative schedules).', '§3 C03'),
 }
 
 NOT_BUILT = 'check not built yet in this round (see DESIGN.md §8 build order); not claimed until it runs'
